@@ -86,8 +86,12 @@ impl RxCtrState {
                 // The previous max_ctr is now the actual counter
                 self.ctr_bitmap <<= udiff;
                 self.insert(udiff - 1);
+            } else if udiff == MSG_RX_STATE_BITMAP_LEN {
+                // Only the previous max_ctr is still inside the window
+                self.ctr_bitmap = 1 << (MSG_RX_STATE_BITMAP_LEN - 1);
             } else {
-                self.ctr_bitmap = 0xffff;
+                // None of the counters inside the new window were received so far
+                self.ctr_bitmap = 0;
             }
             true
         } else if !is_encrypted {
